@@ -106,6 +106,12 @@ inductive ErrCls
   | io | cb | policy | streamErr | proto
   deriving DecidableEq, Repr
 
+/-- an entry of the features cache: the feature and whether the list marked it mandatory -/
+structure Entry where
+  req : Bool
+  f : Feature
+  deriving DecidableEq, Repr
+
 /-! ### events -/
 
 inductive RdKind | hdr | list | sel
@@ -130,7 +136,7 @@ inductive Ev
   | parse (f : Feature) (st : St) (req : Bool) (err : Bool)
   /-- the initiator finished reading a features list `adv`: what it cached (model-internal,
   not observable) -/
-  | listIn (st : St) (fs : List Feature) (adv : List AdvItem)
+  | listIn (st : St) (fs : List Feature) (adv : List AdvItem) (es : List Entry)
   /-- `Negotiate` callback of `f` at state `st`; `req`: the cache entry was mandatory;
   `forced`: the unconditional STARTTLS attempt; `srv`: receiving side -/
   | neg (f : Feature) (st : St) (req forced srv : Bool) (r : NegRes)
@@ -152,11 +158,6 @@ structure Oracle where
   cancel : List Ev → Bool
 
 /-! ### machine -/
-
-structure Entry where
-  req : Bool
-  f : Feature
-  deriving DecidableEq, Repr
 
 abbrev Cache := List Entry
 
@@ -329,7 +330,7 @@ def step (C : List Feature) (O : Oracle) (c : Conf) : Conf :=
       | .serr :: r =>
         { c with io := c.io + 1, tr := .rd .list .got :: c.tr, script := r, pc := .fail .streamErr }
       | _ :: r => { c with io := c.io + 1, tr := .rd .list .got :: c.tr, script := r, pc := .fail .proto }
-  | .parsing [] => (c.log (.listIn c.st (c.cache.map (·.f)) c.curAdv)).goto .decide
+  | .parsing [] => (c.log (.listIn c.st (c.cache.map (·.f)) c.curAdv c.cache)).goto .decide
   | .parsing (.junk :: _) => c.goto (.fail .proto)
   | .parsing (.feat name req :: rest) =>
     let c := { c with total := c.total + 1 }
